@@ -366,7 +366,7 @@ theorem authorityPhase_of_run (A : Block) (s : AuthState) (w2 : World)
     (h : runWorld cfg s.limits
       { facts := insertAll s.world.facts A.facts, rules := s.world.rules ++ A.rules } = (w2, none)) :
     authorityPhase cfg A s =
-      ({ w2 with rules := [] },
+      (w2,
        .ok { world := { w2 with rules := [] },
              failed := failedChecks cfg w2.facts CheckId.authorizer s.checks ++
                failedChecks cfg w2.facts (CheckId.block 0) A.checks,
@@ -548,7 +548,7 @@ theorem authorize_fst_of_run (tok : Token) (s : AuthState) (w2 : World)
     (h : runWorld cfg s.limits
       { facts := insertAll s.world.facts tok.authority.facts,
         rules := s.world.rules ++ tok.authority.rules } = (w2, none)) :
-    (authorize cfg tok s).1 = { s with world := { w2 with rules := [] }, dirty := true } := by
+    (authorize cfg tok s).1 = { s with world := w2, dirty := true } := by
   rw [authorize, authorizeWith_fst_false, authorityPhase_of_run cfg _ s w2 h]
 
 /-- Inside the fragment (in fact: as soon as the authority-level run succeeds), a second
@@ -561,17 +561,22 @@ theorem authorize_twice_run (tok : Token) (s : AuthState) (w : World)
   obtain ⟨hrun, _⟩ := runWorld_run cfg _ _ w none hw
   have hsubA : ∀ f ∈ tok.authority.facts, f ∈ w.facts := fun f hf =>
     run_subset _ _ _ _ _ _ _ hrun f ((mem_insertAll _ _ f).mpr (Or.inr hf))
+  have hwr : w.rules = s.world.rules ++ tok.authority.rules := (runWorld_run cfg _ _ w none hw).2
   have hagain := run_again (evalBool cfg) (evalBool_respects cfg) s.limits.maxFacts
-    (s.world.rules ++ tok.authority.rules) ([] ++ tok.authority.rules)
-    (fun r hr => List.mem_append_right _ (by simpa using hr)) s.limits.maxIter _ w.facts hrun
+    (s.world.rules ++ tok.authority.rules) (w.rules ++ tok.authority.rules)
+    (fun r hr => by
+      rw [hwr] at hr
+      rcases List.mem_append.mp hr with h1 | h2
+      · exact h1
+      · exact List.mem_append_right _ h2) s.limits.maxIter _ w.facts hrun
   have hw1 : runWorld cfg s.limits
-      { facts := insertAll w.facts tok.authority.facts, rules := [] ++ tok.authority.rules } =
-      ({ facts := w.facts, rules := [] ++ tok.authority.rules }, none) := by
+      { facts := insertAll w.facts tok.authority.facts, rules := w.rules ++ tok.authority.rules } =
+      ({ facts := w.facts, rules := w.rules ++ tok.authority.rules }, none) := by
     rw [insertAll_of_subset _ _ hsubA]
-    exact runWorld_of_run cfg s.limits { facts := w.facts, rules := [] ++ tok.authority.rules }
+    exact runWorld_of_run cfg s.limits { facts := w.facts, rules := w.rules ++ tok.authority.rules }
       w.facts none hagain
   rw [authorize_fst_of_run cfg tok s w hw,
-    authorize_snd_of_run cfg tok { s with world := { w with rules := [] }, dirty := true } _ hw1,
+    authorize_snd_of_run cfg tok { s with world := w, dirty := true } _ hw1,
     authorize_snd_of_run cfg tok s w hw]
 
 end Auth
